@@ -70,7 +70,17 @@ func t05Bool(b bool, exact bool) []byte {
 	return out
 }
 
-func t05Quote(s string) []byte { return []byte(`"` + s + `"`) }
+// t05QuoteHook, t05ForeignHook: set by H05_text_escapes (values that need
+// escaping; texts the code under test rewrote); nil elsewhere.
+var t05QuoteHook func(string) []byte
+var t05ForeignHook func([]byte) *t05Doc
+
+func t05Quote(s string) []byte {
+	if t05QuoteHook != nil {
+		return t05QuoteHook(s)
+	}
+	return []byte(`"` + s + `"`)
+}
 
 // t05Fresh: an arbitrary KeyID within the bound.
 func t05Fresh(tag string, nprins int) KeyID {
@@ -212,6 +222,9 @@ func t05Find(data []byte) *t05Doc {
 		if vEqString(t05Docs[i].text, string(data)) {
 			return t05Docs[i]
 		}
+	}
+	if t05ForeignHook != nil {
+		return t05ForeignHook(data)
 	}
 	panic("t05Unmarshal: text of unknown origin")
 }
@@ -550,6 +563,10 @@ func H05_text_roundtrip() {
 	ls := t05Lens()
 	t05Len = ls[vChoose(len(ls), "string-len")]
 	k := t05Fresh("", vChoose(3, "nprins")) // no principals: a nil list, encoded as null
+	t05Roundtrip(k)
+}
+
+func t05Roundtrip(k KeyID) {
 	orig := k
 	if k.Principals != nil {
 		orig.Principals = append([]string{}, k.Principals...)
